@@ -159,6 +159,83 @@ type vCase struct {
 	Base string // corpus key of the base document ("" for scenarios)
 }
 
+var vPoolVocabCache = map[string]map[string]bool{}
+
+// vPoolVocab: the lower-case alphabetic words of a document pool (as white-space separated fields).
+func vPoolVocab(docs []vDoc) map[string]bool {
+	key := fmt.Sprint(len(docs), docs[0].Key, docs[len(docs)-1].Key)
+	if v, ok := vPoolVocabCache[key]; ok {
+		return v
+	}
+	v := map[string]bool{}
+	for _, d := range docs {
+		for _, f := range strings.Fields(strings.ToLower(string(d.Bytes))) {
+			f = strings.Trim(f, ".,;:()\"'")
+			ok := f != ""
+			for i := 0; i < len(f); i++ {
+				if f[i] < 'a' || f[i] > 'z' {
+					ok = false
+				}
+			}
+			if ok {
+				v[f] = true
+			}
+		}
+	}
+	vPoolVocabCache[key] = v
+	return v
+}
+
+type vResplitDoc struct {
+	doc                 int
+	joins, splits, cuts []int
+}
+
+var vResplitCache = map[string][]vResplitDoc{}
+
+// vResplitDocs: the documents of the pool with at least one pair of neighbouring lower-case words
+// whose concatenation is a vocabulary word and one word that is the concatenation of two.
+func vResplitDocs(docs []vDoc) []vResplitDoc {
+	key := fmt.Sprint(len(docs), docs[0].Key, docs[len(docs)-1].Key)
+	if v, ok := vResplitCache[key]; ok {
+		return v
+	}
+	vocab := vPoolVocab(docs)
+	alpha := func(x string) bool {
+		for i := 0; i < len(x); i++ {
+			if x[i] < 'a' || x[i] > 'z' {
+				return false
+			}
+		}
+		return len(x) > 0
+	}
+	var out []vResplitDoc
+	for di, d := range docs {
+		w := strings.Fields(string(d.Bytes))
+		rd := vResplitDoc{doc: di}
+		for i := range w {
+			if !alpha(w[i]) {
+				continue
+			}
+			if i+1 < len(w) && alpha(w[i+1]) && vocab[w[i]+w[i+1]] {
+				rd.joins = append(rd.joins, i)
+			}
+			for c := 2; c+2 <= len(w[i]); c++ {
+				if vocab[w[i][:c]] && vocab[w[i][c:]] {
+					rd.splits = append(rd.splits, i)
+					rd.cuts = append(rd.cuts, c)
+					break
+				}
+			}
+		}
+		if len(rd.joins) > 0 && len(rd.splits) > 0 {
+			out = append(out, rd)
+		}
+	}
+	vResplitCache[key] = out
+	return out
+}
+
 // vChooseCorpusCase lets the explorer pick one corpus-scale input from the
 // edit-script families. docs is the document pool of this tier.
 func vChooseCorpusCase(r *vx.Run, docs []vDoc, families []string) vCase {
@@ -266,6 +343,82 @@ func vChooseCorpusCase(r *vx.Run, docs []vDoc, families []string) vCase {
 		sb.Write(d.Bytes)
 		sb.WriteString("\n" + vOOVBlock(1, 3, 5))
 		return vCase{fmt.Sprintf("deeplines:%s:%d %s lines first", d.Key, n, []string{"blank", "one-word"}[kind]), []byte(sb.String()), d.Key}
+	case "resplit":
+		// the document verbatim, a filler block, and the document again with the SAME letters cut into
+		// words differently at two places: two neighbouring words written as one ("can not" ->
+		// "cannot") and one word written as two ("sublicense" -> "sub license"), every piece being a
+		// word of the pool's vocabulary; the second copy has as many words as the first. Only the
+		// documents of the pool that have both kinds of places take part.
+		cands := vResplitDocs(docs)
+		if len(cands) == 0 {
+			return vCase{"exact:" + docs[0].Key, docs[0].Bytes, docs[0].Key}
+		}
+		rc := cands[r.Choose(len(cands), "doc")]
+		jc, sc := r.Choose(4, "join"), r.Choose(4, "split")
+		d := docs[rc.doc]
+		w := strings.Fields(string(d.Bytes))
+		ji := rc.joins[jc*len(rc.joins)/4]
+		sk := sc * len(rc.splits) / 4
+		si, cut := rc.splits[sk], rc.cuts[sk]
+		if si == ji || si == ji+1 {
+			return vCase{"exact:" + d.Key, d.Bytes, d.Key}
+		}
+		var out []string
+		for i := 0; i < len(w); i++ {
+			switch {
+			case i == ji:
+				out = append(out, w[i]+w[i+1])
+				i++
+			case i == si:
+				out = append(out, w[i][:cut], w[i][cut:])
+			default:
+				out = append(out, w[i])
+			}
+		}
+		var sb strings.Builder
+		sb.Write(d.Bytes)
+		sb.WriteString("\n" + vOOVBlock(1, 3, 9) + "\n")
+		for i, x := range out {
+			sb.WriteString(x)
+			if i%12 == 11 {
+				sb.WriteByte('\n')
+			} else {
+				sb.WriteByte(' ')
+			}
+		}
+		sb.WriteString("\n")
+		return vCase{fmt.Sprintf("resplit:%s:%q+%q joined, %q cut after %d", d.Key, w[ji], w[ji+1], w[si], cut), []byte(sb.String()), d.Key}
+	case "bigvocab":
+		// the document behind a text with N DISTINCT spellings, N a little below a power of two, so
+		// that the document's own words cross the boundary in the middle of one of its lines; with
+		// case = mixed every second filler word is capitalised (the spellings as written and the
+		// lower-cased spellings then differ in number)
+		nd := len(docs)
+		if nd > 4 {
+			nd = 4
+		}
+		d := docs[r.Choose(nd, "doc")]
+		ns := []int{2030, 4046, 4090, 8142, 16334, 32718, 65486}
+		n := ns[r.Choose(len(ns), "spellings")]
+		mixed := r.Choose(2, "case") == 1
+		var sb strings.Builder
+		for i := 0; i < n; i++ {
+			w := "v" + string(rune('a'+i%26)) + string(rune('a'+(i/26)%26)) + string(rune('a'+(i/676)%26)) + string(rune('a'+(i/17576)%26)) + "q"
+			if mixed && i%2 == 1 {
+				// the previous word again, capitalised: a new spelling only as written
+				w = "V" + string(rune('a'+(i-1)%26)) + string(rune('a'+((i-1)/26)%26)) + string(rune('a'+((i-1)/676)%26)) + string(rune('a'+((i-1)/17576)%26)) + "q"
+			}
+			sb.WriteString(w)
+			if i%11 == 10 {
+				sb.WriteByte('\n')
+			} else {
+				sb.WriteByte(' ')
+			}
+		}
+		sb.WriteString("\n")
+		sb.Write(d.Bytes)
+		sb.WriteString("\n" + vOOVBlock(1, 3, 5))
+		return vCase{fmt.Sprintf("bigvocab:%s:%d spellings first, case %v", d.Key, n, map[bool]string{false: "lower", true: "mixed"}[mixed]), []byte(sb.String()), d.Key}
 	case "wordset":
 		// the document's DISTINCT words, each once, in order of first occurrence (or reversed): nearly
 		// all of its vocabulary in far fewer tokens than the document has
